@@ -38,7 +38,7 @@ func (auth *Authenticator) AuthenticateCookie(rq *http.Request, response http.Re
 	}
 
 	var session LoginSession
-	_, err := auth.datastore.Get(auth.LogCtx, auth.DocIDForSession(cookie.Value), &session)
+	sessionCas, err := auth.datastore.Get(auth.LogCtx, auth.DocIDForSession(cookie.Value), &session)
 	if err != nil {
 		if base.IsDocNotFoundError(err) {
 			base.InfofCtx(auth.LogCtx, base.KeyAuth, "Session not found: %s", base.UD(cookie.Value))
@@ -61,8 +61,12 @@ func (auth *Authenticator) AuthenticateCookie(rq *http.Request, response http.Re
 	// One-time sessions must not refresh the cookie — they will be deleted on this request.
 	if sessionTimeElapsed > tenPercentOfTtl && (session.OneTime == nil || !*session.OneTime) {
 		session.Expiration = time.Now().Add(duration)
-		if err = auth.datastore.Set(auth.LogCtx, auth.DocIDForSession(session.ID), base.DurationToCbsExpiry(duration), nil, session); err != nil {
-			return nil, err
+		// Refresh guarded by the CAS read above, so that a session deleted (logout) in the meantime isn't re-created.
+		// A lost race with another refresh or a delete is not an error for this request.
+		if _, err = auth.datastore.WriteCas(auth.LogCtx, auth.DocIDForSession(session.ID), base.DurationToCbsExpiry(duration), sessionCas, session, 0); err != nil {
+			if !base.IsCasMismatch(err) && !base.IsDocNotFoundError(err) {
+				return nil, err
+			}
 		}
 		base.AddDbPathToCookie(rq, cookie)
 		cookie.Expires = session.Expiration
